@@ -92,6 +92,23 @@ CHECKS = {
    note="ties compared as multisets; multi-column reverse not judged; inputs sampled",
    tech="deterministic simulation: seeded write histories with restart vs scan-and-sort model",
    ref="DESIGN.md §5 C11"),
+ "C01": dict(level="exploration",
+   text="The acknowledged import is observed through the returned handle, a second handle opened while the importer's connection is "
+        "alive, a fresh process after normal exit and after a crash-exit right after the acknowledgement, and through the history "
+        "import -> print all -> re-import; per line: columns, extra columns, ordered attributes and byte-identical printed form, in "
+        "input order. The dialect space (3 families x separators x trailing semicolon x repeated keys x escapes x extra columns x '.' "
+        "coordinates x flags) is sampled.",
+   note="dialects sampled, not enumerated (the pure parse/print laws C07-C09 are not applicable to this technique); sqlite commit atomic",
+   tech="deterministic simulation: import observed from several connections/processes incl. crash-exit, export/re-import history",
+   ref="DESIGN.md §5 C01"),
+ "C16": dict(level="exploration",
+   text="merge/merge_all as operations on a handle and a store: histories of merge (many criteria sets), re-merge of the same objects, "
+        "children_bp, merge_all (groups, exclude_components), gc, reopen, restart, crash-exit after merge_all; operational run rule of the "
+        "statement, independent interval union for default criteria, partition law, id freshness across merges and sessions, database "
+        "file untouched by merge/children_bp, content read by a fresh process after merge_all. Geometry sampled over 8 positions.",
+   note="interval geometry sampled (the statement's exhaustive small-scope quantifier is another technique's); explicit <type>_<n> ids not generated",
+   tech="deterministic simulation: seeded merge/merge_all histories with restart and crash-exit vs operational merge model",
+   ref="DESIGN.md §5 C16"),
 }
 
 NA = {
